@@ -126,6 +126,10 @@ func stateDescriptionTextBegin(s *Scanner, c byte) *jerr.JApiError {
 }
 
 func stateDescriptionTextBracketsInner(s *Scanner, c byte) *jerr.JApiError {
+	if c == EOF {
+		// The text would be lost silently: its beginning has been found, its end never will be.
+		return s.japiErrorUnexpectedChar("inside the description", `")"`)
+	}
 	if IsNewLine(c) {
 		s.step = stateDescriptionTextBracketsInnerNewLine
 	}
@@ -140,6 +144,8 @@ func stateDescriptionTextBracketsInnerNewLine(s *Scanner, c byte) *jerr.JApiErro
 		s.found(TextEnd)
 		s.step = stateExpectKeyword
 		return nil
+	case EOF:
+		return s.japiErrorUnexpectedChar("inside the description", `")"`)
 	default:
 		s.step = stateDescriptionTextBracketsInner
 		return nil
